@@ -137,6 +137,24 @@ class Types:
                 for c in re.finditer(r"pub const (\w+): Self = Self \{\s*bits: (0x[0-9a-fA-F_]+|0b[01_]+|\d[\d_]*)\s*,?\s*\};", body):
                     self.flags[(ty, c.group(1))] = int(c.group(2).replace("_", ""), 0)
 
+        # `pub enum X { A = 0x0001, … }` (scalar enums of the schemas)
+        self.enum_consts = {}
+        for f in sorted(srcs):
+            txt = strip_comments(open(f).read())
+            for m in re.finditer(r"pub enum (\w+)\s*\{", txt):
+                end = balanced(txt, m.end() - 1)
+                body = re.sub(r"#\[[^\]]*\]", "", re.sub(r"///.*", "", txt[m.end():end - 1]))
+                for part in split_top(body, ","):
+                    mm = re.fullmatch(r"(\w+)=(0x[0-9a-fA-F_]+|\d[\d_]*)", tight(part))
+                    if mm:
+                        self.enum_consts[(m.group(1), mm.group(1))] = int(mm.group(2).replace("_", ""), 0)
+        # hand-written `fn compile_x(&self) -> T` of write-fonts (named by `#[compile(self.compile_x())]`)
+        self.hand_fn_ret = {}
+        for f in sorted(glob.glob(os.path.join(repo, "write-fonts/src/**/*.rs"), recursive=True)):
+            txt = strip_comments(open(f).read())
+            for m in re.finditer(r"fn (compile_\w+)\(&self\)\s*->\s*([^{]+?)\s*\{", txt):
+                self.hand_fn_ret.setdefault(m.group(1), set()).add(tight(m.group(2)))
+
     def size(self, ty):
         ty = re.sub(r"^Nullable<(\w+)>$", r"\1", ty)
         ty = re.sub(r"^BigEndian<(.+)>$", r"\1", ty)
@@ -197,29 +215,453 @@ def parse_cond(T, recv_ty, fn, arg):
 
 COND_RE = r"(\w+)\.(compatible|contains|intersects)\(((?:\([^()]*\)|[^()])*)\)"
 
+
+# ------------------------------------------------------------------------------------------------
+# numbers the readers compute (Model/Field.lean `NExpr`): python trees
+#   ('lit', n) | ('var', name) | ('add', a, b) | ('sub', a, b) | ('mul', a, b) | ('div', a, k) | ('divCeil', a, k)
+#   | ('popcnt', k, a) | ('app', fn, a, b, c)
+
+def nx_mul(a, b):
+    if a == ('lit', 1):
+        return b
+    if b == ('lit', 1):
+        return a
+    return ('mul', a, b)
+
+def nx_add(a, b):
+    if a == ('lit', 0):
+        return b
+    if b == ('lit', 0):
+        return a
+    return ('add', a, b)
+
+def nx_subst(e, env):
+    """replace ('var', name) by env[name]"""
+    k = e[0]
+    if k == 'lit':
+        return e
+    if k == 'var':
+        if e[1] not in env:
+            raise NotCovered(f"expression variable {e[1]} is not an argument or a field read before")
+        return env[e[1]]
+    if k in ('add', 'sub', 'mul'):
+        return (k, nx_subst(e[1], env), nx_subst(e[2], env))
+    if k in ('div', 'divCeil'):
+        return (k, nx_subst(e[1], env), e[2])
+    if k == 'popcnt':
+        return (k, e[1], nx_subst(e[2], env))
+    if k == 'app':
+        return (k, e[1], nx_subst(e[2], env), nx_subst(e[3], env), nx_subst(e[4], env))
+    raise ValueError(e)
+
+def nx_vars(e):
+    k = e[0]
+    if k == 'lit':
+        return []
+    if k == 'var':
+        return [e[1]]
+    if k in ('add', 'sub', 'mul'):
+        return nx_vars(e[1]) + nx_vars(e[2])
+    if k in ('div', 'divCeil'):
+        return nx_vars(e[1])
+    if k == 'popcnt':
+        return nx_vars(e[2])
+    if k == 'app':
+        return nx_vars(e[2]) + nx_vars(e[3]) + nx_vars(e[4])
+    raise ValueError(e)
+
+def nx_lean(e, ids):
+    k = e[0]
+    if k == 'lit':
+        return f"(.lit {e[1]})"
+    if k == 'var':
+        if e[1] not in ids:
+            raise NotCovered(f"expression variable {e[1]} is not a field or an argument")
+        return f"(.field {ids[e[1]]})"
+    if k in ('add', 'sub', 'mul'):
+        return f"(.{k} {nx_lean(e[1], ids)} {nx_lean(e[2], ids)})"
+    if k in ('div', 'divCeil'):
+        return f"(.{k} {nx_lean(e[1], ids)} {e[2]})"
+    if k == 'popcnt':
+        return f"(.popcnt {e[1]} {nx_lean(e[2], ids)})"
+    if k == 'app':
+        return f"(.app .{e[1]} {nx_lean(e[2], ids)} {nx_lean(e[3], ids)} {nx_lean(e[4], ids)})"
+    raise ValueError(e)
+
+def nx_text(e):
+    """human-readable form for the report"""
+    k = e[0]
+    if k == 'lit':
+        return str(e[1])
+    if k == 'var':
+        return e[1]
+    if k in ('add', 'sub', 'mul'):
+        return "(" + nx_text(e[1]) + {"add": " + ", "sub": " -sat ", "mul": " * "}[k] + nx_text(e[2]) + ")"
+    if k == 'div':
+        return f"({nx_text(e[1])} / {e[2]})"
+    if k == 'divCeil':
+        return f"ceil({nx_text(e[1])} / {e[2]})"
+    if k == 'popcnt':
+        return f"popcount{e[1]}({nx_text(e[2])})"
+    if k == 'app':
+        return f"{e[1]}({nx_text(e[2])}, {nx_text(e[3])}, {nx_text(e[4])})"
+    raise ValueError(e)
+
+def segs_lean(segs, ids):
+    return lean_list([f"({nx_lean(n, ids)}, {lean_list([str(x) for x in ws])})" for (n, ws) in segs])
+
+def segs_text(segs):
+    return " ++ ".join(f"{nx_text(n)} x {ws}" for (n, ws) in segs)
+
+# hand-written count functions the generated readers call, transcribed in Model/Field.lean `CFn.eval`:
+#   rust path -> (CFn constructor, arity, source file, fn name)
+CUSTOM_FNS = {
+    "DeltaFormat::value_count": ("valueCount", 3, "read-fonts/src/tables/layout.rs", "value_count"),
+    "EntryFormat::map_size": ("mapSize", 2, "read-fonts/src/tables/variations.rs", "map_size"),
+    "ItemVariationData::delta_sets_len": ("deltaSetsLen", 3, "read-fonts/src/tables/variations.rs", "delta_sets_len"),
+    "TupleIndex::tuple_len": ("tupleLen", 3, "read-fonts/src/tables/variations.rs", "tuple_len"),
+}
+# further hand-written source the models of this translator transcribe: (file, regex that starts the item)
+HAND_ITEMS = {
+    "transforms": ("read-fonts/src/lib.rs", r"pub\(crate\) mod transforms\s*\{"),
+    "EntryFormat::entry_size": ("read-fonts/src/tables/variations.rs", r"pub fn entry_size\(self\)[^{]*\{"),
+    "ItemVariationData::delta_row_len": ("read-fonts/src/tables/variations.rs", r"pub fn delta_row_len\([^{]*\{"),
+    "ValueFormat::record_byte_len": ("read-fonts/src/tables/value_record.rs", r"pub fn record_byte_len\(self\)[^{]*\{"),
+    "ComputeSize for ValueRecord": ("read-fonts/src/tables/value_record.rs", r"impl ComputeSize for ValueRecord\s*\{"),
+    "ValueRecord::read": ("read-fonts/src/tables/value_record.rs", r"pub fn read\(data: FontData(?:<'_>)?, format: ValueFormat\)[^{]*\{"),
+    "FontWrite for ValueRecord": ("write-fonts/src/tables/gpos/value_record.rs", r"impl FontWrite for ValueRecord\s*\{"),
+    "VarSize for SegmentMaps": ("read-fonts/src/tables/avar.rs", r"impl VarSize for SegmentMaps<'_>\s*\{"),
+    "FontRead for SegmentMaps": ("read-fonts/src/tables/avar.rs", r"impl<'a> FontRead<'a> for SegmentMaps<'a>\s*\{"),
+    "VarSize::read_len_at (default)": ("read-fonts/src/read.rs", r"pub trait VarSize\s*\{"),
+}
+
+def hand_hashes(repo):
+    import hashlib
+    out = {}
+    items = {k: (v[2], r"fn %s\([^{]*\{" % v[3]) for k, v in CUSTOM_FNS.items()}
+    items.update(HAND_ITEMS)
+    for name, (path, rx) in sorted(items.items()):
+        try:
+            txt = strip_comments(open(os.path.join(repo, path)).read())
+        except OSError:
+            out[name] = "missing file"
+            continue
+        m = re.search(rx, txt)
+        if not m:
+            out[name] = "not found"
+            continue
+        e = balanced(txt, m.end() - 1)
+        out[name] = hashlib.sha1(tight(txt[m.start():e]).encode()).hexdigest()[:16]
+    return out
+
 # ------------------------------------------------------------------------------------------------
 # reader side
 
 class Reader:
     def __init__(self):
-        self.tables = {}    # (mod, name) -> dict(fields=[...]) or dict(error=reason)
+        self.tables = {}    # (mod, name) -> dict(fields=[...], args=[(name, ty)]) or dict(error=reason)
         self.records = {}   # (mod, name) -> [(fname, ty)]  fixed-size records
         self.rec_sizes = {}  # name -> [sizes]  (by bare name; None on conflict)
+        self.read_args = {}  # name -> [arg types]                    `impl ReadArgs for X`
+        self.compute_sizes = {}  # name -> dict(params=[..], terms=[..]) generated `impl ComputeSize for X`
+        self.arg_records = {}  # (mod, name) -> dict(args=[(name, ty)], fields=[...]) | dict(error=..)  records read with args
+        self.var_sizes = {}  # name -> dict(hw=.., item=[sizes])      `impl VarSize for X` (hand-written)
+        self.formats = {}    # marker type name (without Marker) -> (format type, value)
+        self.enums = {}      # (mod, name) -> dict(hw=.., arms=[(variant, type)]) | dict(error=..)
+
+def parse_atom(T, a, var_ty):
+    """argument of a transform / custom count fn: an unsigned local, or `N_usize`"""
+    m = re.fullmatch(r"(\d+)_usize", a)
+    if m:
+        return ('lit', int(m.group(1)))
+    if re.fullmatch(r"\w+", a):
+        if a not in var_ty:
+            raise NotCovered(f"count variable {a} not read")
+        if not T.unsigned(var_ty[a]):
+            raise NotCovered(f"count variable {a} has signed/unknown type {var_ty[a]}")
+        return ('var', a)
+    raise NotCovered(f"count argument {a}")
+
+def parse_reader_count(T, expr, var_ty=None, args=()):
+    """count expression -> ('affine', var, a, b) | ('lit', n) | ('expr', nexpr)"""
+    m = re.fullmatch(r"\((\w+) as usize\)", expr)
+    if m:
+        if m.group(1) in args:
+            return ("expr", parse_atom(T, m.group(1), var_ty))
+        return ("affine", m.group(1), 1, 0)
+    m = re.fullmatch(r"\(transforms::subtract\((\w+),(\d+)_usize\)\)", expr)
+    if m and m.group(1) not in args:
+        return ("affine", m.group(1), 1, int(m.group(2)))
+    m = re.fullmatch(r"\(transforms::half\((\w+)\)\)", expr)
+    if m and m.group(1) not in args:
+        return ("affine", m.group(1), 2, 0)
+    m = re.fullmatch(r"\((\d+)_usize\)", expr)
+    if m:
+        return ("lit", int(m.group(1)))
+    if var_ty is None:
+        raise NotCovered(f"count expression {expr}")
+    m = re.fullmatch(r"\(transforms::(\w+)\((.*)\)\)", expr)
+    if m:
+        fn = m.group(1)
+        a = [parse_atom(T, x, var_ty) for x in split_top(m.group(2), ",")]
+        # read-fonts/src/lib.rs codegen_prelude::transforms (arguments through try_into().unwrap_or_default(): the raw
+        # value of an unsigned scalar)
+        if fn == "subtract" and len(a) == 2:
+            return ("expr", ('sub', a[0], a[1]))
+        if fn == "add" and len(a) == 2:
+            return ("expr", ('add', a[0], a[1]))
+        if fn == "bitmap_len" and len(a) == 1:
+            return ("expr", ('divCeil', a[0], 8))
+        if fn == "max_value_bitmap_len" and len(a) == 1:
+            return ("expr", ('divCeil', ('add', a[0], ('lit', 1)), 8))
+        if fn == "add_multiply" and len(a) == 3:
+            return ("expr", ('mul', ('add', a[0], a[1]), a[2]))
+        if fn == "multiply_add" and len(a) == 3:
+            return ("expr", ('add', ('mul', a[0], a[1]), a[2]))
+        if fn == "half" and len(a) == 1:
+            return ("expr", ('div', a[0], 2))
+        if fn == "subtract_add_two" and len(a) == 2:
+            return ("expr", ('add', ('sub', a[0], a[1]), ('lit', 2)))
+        raise NotCovered(f"count transform {fn}/{len(a)}")
+    m = re.fullmatch(r"\((\w+::\w+)\((.*)\)\)", expr)
+    if m and m.group(1) in CUSTOM_FNS:
+        cf, arity, _, _ = CUSTOM_FNS[m.group(1)]
+        a = [parse_atom(T, x, var_ty) for x in split_top(m.group(2), ",")]
+        if len(a) != arity:
+            raise NotCovered(f"custom count fn {m.group(1)} with {len(a)} arguments")
+        while len(a) < 3:
+            a.append(('lit', 0))
+        return ("expr", ('app', cf, a[0], a[1], a[2]))
+    raise NotCovered(f"count expression {expr}")
+
+def parse_size_args(text):
+    """`&x` | `&(a,b,c)` -> [names]"""
+    m = re.fullmatch(r"&\((.*)\)", text)
+    if m:
+        return [x for x in split_top(m.group(1), ",")]
+    m = re.fullmatch(r"&(\w+)", text)
+    if m:
+        return [m.group(1)]
+    raise NotCovered(f"compute_size arguments {text}")
+
+SIZE_RE = r"(?:(\w+)::RAW_BYTE_LEN|<(\w+) as ComputeSize>::compute_size\((&(?:\w+|\([^()]*\)))\)\?)"
+
+def parse_size(m, base):
+    """groups base..base+2 of SIZE_RE -> ('const', ty) | ('compute', rname, [argnames])"""
+    if m.group(base):
+        return ("const", m.group(base))
+    return ("compute", m.group(base + 1), parse_size_args(m.group(base + 2)))
+
+def parse_reader_len(T, R, expr, var_ty=None, args=()):
+    """byte-length expression -> (count, size) with size = ('const', ty) | ('compute', rname, [argnames]) | ('varlen', ty)"""
+    m = re.fullmatch(r"(.+)\.checked_mul\(" + SIZE_RE + r"\)\.ok_or\(ReadError::OutOfBounds\)\?", expr)
+    if m:
+        return parse_reader_count(T, m.group(1), var_ty, args), parse_size(m, 2)
+    m = re.fullmatch(SIZE_RE, expr)
+    if m and not m.group(1):
+        return ("lit", 1), parse_size(m, 1)
+    m = re.fullmatch(r"cursor\.remaining_bytes\(\)/(\w+)::RAW_BYTE_LEN\*(\w+)::RAW_BYTE_LEN", expr)
+    if m and m.group(1) == m.group(2):
+        return ("rest",), ("const", m.group(1))
+    m = re.fullmatch(r"\{let data=cursor\.remaining\(\)\.ok_or\(ReadError::OutOfBounds\)\?;<(\w+) as VarSize>::total_len_for_count\(data,(\w+) as usize\)\?\}", expr)
+    if m:
+        return parse_reader_count(T, f"({m.group(2)} as usize)", var_ty, args), ("varlen", m.group(1))
+    if expr == "cursor.remaining_bytes()":
+        raise NotCovered("length expression cursor.remaining_bytes() (a VarLenArray / byte blob up to the end of the data)")
+    raise NotCovered(f"length expression {expr[:90]}")
+
+def size_widths(T, R, ty, mod):
+    sizes, isrec = elem_sizes(T, R, ty, mod)
+    return sizes, isrec
+
+def scale_segs(cnt, segs):
+    """`cnt` copies of the element layout `segs`, as segments"""
+    if cnt == ('lit', 1):
+        return segs
+    if len(segs) == 1:
+        return [(nx_mul(cnt, segs[0][0]), segs[0][1])]
+    ws = set(w for (_, g) in segs for w in g)
+    if len(ws) == 1:
+        total = ('lit', 0)
+        for (n, g) in segs:
+            total = nx_add(total, nx_mul(n, ('lit', len(g))))
+        return [(nx_mul(cnt, total), [ws.pop()])]
+    raise NotCovered("repeated element layout with scalars of different widths")
+
+def compute_size_segs(T, R, rname, mod, argexprs, depth=0):
+    """the element layout `<rname as ComputeSize>::compute_size(&args)` describes, as segments over the caller's
+    expressions"""
+    if depth > 6:
+        raise NotCovered("ComputeSize recursion")
+    if rname == "ValueRecord":
+        # hand-written (read-fonts/src/tables/value_record.rs): `record_byte_len` = count_ones * 2; the eight defined
+        # flags are the low byte; `ValueRecord::read` reads one 16-bit scalar per contained flag
+        if len(argexprs) != 1:
+            raise NotCovered("ValueRecord size arguments")
+        return [(('popcnt', 8, argexprs[0]), [2])]
+    cs = R.compute_sizes.get(rname)
+    if cs is None:
+        raise NotCovered(f"ComputeSize for {rname} is hand-written")
+    if "error" in cs:
+        raise NotCovered(cs["error"])
+    if len(cs["params"]) != len(argexprs):
+        raise NotCovered(f"ComputeSize for {rname}: {len(argexprs)} arguments for {len(cs['params'])} parameters")
+    env = dict(zip(cs["params"], argexprs))
+    segs = []
+    for (cnt, size) in cs["terms"]:
+        c = nx_subst(cnt, env)
+        if size[0] == "const":
+            ws, _ = size_widths(T, R, size[1], mod)
+            inner = [(('lit', 1), ws)]
+        else:
+            inner = compute_size_segs(T, R, size[1], mod, [nx_subst(('var', a), env) for a in size[2]], depth + 1)
+        segs += scale_segs(c, inner)
+    return segs
+
+def parse_compute_size(T, body):
+    """generated `fn compute_size(args: &A) -> Result<usize, ReadError> { … }` -> dict(params, terms=[(count nexpr, size)])"""
+    stmts = split_statements(body)
+    params = []
+    if stmts and re.fullmatch(r"let ?\((.*)\)=\*args", stmts[0]):
+        params = split_top(re.fullmatch(r"let ?\((.*)\)=\*args", stmts[0]).group(1), ",")
+        stmts = stmts[1:]
+    elif stmts and re.fullmatch(r"let (\w+)=\*args", stmts[0]):
+        params = [re.fullmatch(r"let (\w+)=\*args", stmts[0]).group(1)]
+        stmts = stmts[1:]
+    terms = []
+
+    def term(text):
+        m = re.fullmatch(r"\((\w+) as usize\)\.checked_mul\(" + SIZE_RE + r"\)\.ok_or\(ReadError::OutOfBounds\)\?", text)
+        if m:
+            if m.group(1) not in params:
+                raise NotCovered(f"compute_size count {m.group(1)} is not an argument")
+            return (('var', m.group(1)), parse_size(m, 2))
+        m = re.fullmatch(SIZE_RE, text)
+        if m:
+            return (('lit', 1), parse_size(m, 1))
+        raise NotCovered(f"compute_size term {text[:80]}")
+
+    if len(stmts) == 1 and re.fullmatch(r"Ok\((.*)\)", stmts[0]):
+        terms.append(term(re.fullmatch(r"Ok\((.*)\)", stmts[0]).group(1)))
+        return {"params": params, "terms": terms}
+    if not stmts or stmts[0] != "let mut result=0usize" or stmts[-1] != "Ok(result)":
+        raise NotCovered("compute_size body form")
+    for st in stmts[1:-1]:
+        m = re.fullmatch(r"result=result\.checked_add\((.*)\)\.ok_or\(ReadError::OutOfBounds\)\?", st)
+        if not m:
+            raise NotCovered(f"compute_size statement {st[:80]}")
+        terms.append(term(m.group(1)))
+    return {"params": params, "terms": terms}
+
+def parse_args_binding(stmt, arg_tys):
+    """`let (a,b)=*args` | `let a=*args` -> [(name, ty)]"""
+    m = re.fullmatch(r"let ?\((.*)\)=\*args", stmt)
+    if m:
+        names = split_top(m.group(1), ",")
+    else:
+        m = re.fullmatch(r"let (\w+)=\*args", stmt)
+        if not m:
+            return None
+        names = [m.group(1)]
+    if arg_tys is None or len(arg_tys) != len(names):
+        raise NotCovered(f"argument binding {stmt} does not match ReadArgs {arg_tys}")
+    return list(zip(names, arg_tys))
+
+def parse_arg_record(T, R, mod, name, src, struct_fields):
+    """a record read with arguments: `impl FontReadWithArgs for X { fn read_with_args(data, args) { let mut cursor = …;
+    let (a, b) = *args; Ok(Self { f: cursor.read_be()?, g: cursor.read_array(n as usize)?, h: cursor.read_with_args(&a)?,
+    k: cursor.read_computed_array(n as usize, &(a, b))? }) } }`"""
+    m = re.search(r"impl<'a>\s*FontReadWithArgs<'a>\s+for\s+%s(?:<'a>)?\s*\{" % name, src)
+    if not m:
+        raise NotCovered("record with a lifetime but no generated read_with_args (hand-written reader)")
+    end = balanced(src, m.end() - 1)
+    body = src[m.end():end]
+    m2 = re.search(r"fn read_with_args\([^{]*\)\s*->\s*Result<Self,\s*ReadError>\s*\{", body)
+    if not m2:
+        raise NotCovered("read_with_args signature")
+    e2 = balanced(body, m2.end() - 1)
+    stmts = split_statements(body[m2.end():e2 - 1])
+    if len(stmts) != 3 or stmts[0] != "let mut cursor=data.cursor()":
+        raise NotCovered(f"record read_with_args body: {stmts[:1]}")
+    args = parse_args_binding(stmts[1], R.read_args.get(name))
+    if args is None:
+        raise NotCovered(f"record argument binding {stmts[1]}")
+    var_ty = dict(args)
+    m3 = re.fullmatch(r"Ok\(Self\{(.*)\}\)", stmts[2])
+    if not m3:
+        raise NotCovered(f"record read_with_args result {stmts[2][:80]}")
+    fields = []
+    inits = [x for x in split_top(m3.group(1), ",") if x]
+    if [x.split(":")[0] for x in inits] != [n for (n, _) in struct_fields]:
+        raise NotCovered("record fields are not initialised in declaration order")
+    for init, (fname, fty) in zip(inits, struct_fields):
+        e = init.split(":", 1)[1]
+        f = {"name": fname, "cond": None, "getter": True}
+        mm = re.fullmatch(r"BigEndian<([\w<>]+)>", fty)
+        if e == "cursor.read_be()?" and mm and T.size(mm.group(1)) is not None:
+            f.update(kind="scalar", ty=mm.group(1), size=T.size(mm.group(1)))
+            # (a field of a record is not visible to later count expressions of the same record: codegen passes args only)
+        elif re.fullmatch(r"cursor\.read_array\((.*)\)\?", e):
+            cnt = parse_reader_count(T, "(" + re.fullmatch(r"cursor\.read_array\((.*)\)\?", e).group(1) + ")", var_ty, [a for a, _ in args])
+            mm = re.fullmatch(r"&'a\[(?:BigEndian<)?([\w<>]+?)>?\]", fty)
+            if not mm:
+                raise NotCovered(f"record array field {fname}: type {fty}")
+            ety = mm.group(1)
+            sizes, isrec = elem_sizes(T, R, ety, mod)
+            f.update(kind="array", count=cnt, elem=sizes, elemty=ety, isrec=isrec)
+        elif re.fullmatch(r"cursor\.read_with_args\((&\w+|&\([^()]*\))\)\?", e):
+            a = parse_size_args(re.fullmatch(r"cursor\.read_with_args\((.*)\)\?", e).group(1))
+            f.update(kind="arrayV", count=("lit", 1), size=("compute", fty, a), elemty=fty)
+        elif re.fullmatch(r"cursor\.read_computed_array\((\w+) as usize,(&\w+|&\([^()]*\))\)\?", e):
+            mm2 = re.fullmatch(r"cursor\.read_computed_array\((\w+) as usize,(.*)\)\?", e)
+            mm = re.fullmatch(r"ComputedArray<'a,(\w+)(?:<'a>)?>", fty)
+            if not mm:
+                raise NotCovered(f"record computed array field {fname}: type {fty}")
+            cnt = parse_reader_count(T, f"({mm2.group(1)} as usize)", var_ty, [a for a, _ in args])
+            f.update(kind="arrayV", count=cnt, size=("compute", mm.group(1), parse_size_args(mm2.group(2))), elemty=mm.group(1))
+        else:
+            raise NotCovered(f"record field {fname}: {e[:80]} : {fty}")
+        fields.append(f)
+    return {"fields": fields, "args": args, "statements": 3}
 
 def parse_reader_file(T, mod, src, R):
     src = re.sub(r"#\[[^\]]*\]", "", src)
+    # `impl ReadArgs for X<'_> { type Args = (u16, u16); }`
+    for m in re.finditer(r"impl\s+ReadArgs\s+for\s+(\w+)(?:<'_>)?\s*\{\s*type\s+Args\s*=\s*([^;]+);", src):
+        a = tight(m.group(2))
+        mm = re.fullmatch(r"\((.*)\)", a)
+        R.read_args[m.group(1)] = split_top(mm.group(1), ",") if mm else [a]
+    # `impl Format<u16> for XMarker { const FORMAT: u16 = 1; }`
+    for m in re.finditer(r"impl\s+Format<(\w+)>\s+for\s+(\w+)Marker\s*\{\s*const\s+FORMAT\s*:\s*\w+\s*=\s*(\d+)\s*;", src):
+        R.formats[m.group(2)] = (m.group(1), int(m.group(3)))
+    # generated `impl ComputeSize for X`
+    for m in re.finditer(r"impl\s+ComputeSize\s+for\s+(\w+)(?:<'_>)?\s*\{", src):
+        end = balanced(src, m.end() - 1)
+        body = src[m.end():end]
+        m2 = re.search(r"fn compute_size\(args:\s*&[^{]*\)\s*->\s*Result<usize,\s*ReadError>\s*\{", body)
+        if not m2:
+            continue
+        e2 = balanced(body, m2.end() - 1)
+        try:
+            R.compute_sizes[m.group(1)] = parse_compute_size(T, body[m2.end():e2 - 1])
+        except NotCovered as e:
+            R.compute_sizes[m.group(1)] = {"error": f"ComputeSize for {m.group(1)}: {e}"}
     # fixed-size records: `pub struct X { pub f: BigEndian<T>, … }` (no lifetime)
-    for m in re.finditer(r"pub struct (\w+)\s*\{", src):
+    for m in re.finditer(r"pub struct (\w+)(<'a>)?\s*\{", src):
         name = m.group(1)
         if name.endswith("Marker"):
             continue
         end = balanced(src, m.end() - 1)
         body = re.sub(r"///.*", "", src[m.end():end - 1])
         fields, ok = [], True
+        raw_fields = []
         for fld in split_top(body, ","):
             fld = tight(fld)
             if not fld:
                 continue
+            mr = re.fullmatch(r"pub (\w+):(.*)", fld)
+            if mr:
+                raw_fields.append((mr.group(1), mr.group(2)))
             mm = re.fullmatch(r"pub (\w+):(?:BigEndian<([\w<>]+)>|(u8))", fld)
             if mm and mm.group(3):
                 mm = re.fullmatch(r"pub (\w+):()?(u8)", fld)
@@ -227,15 +669,17 @@ def parse_reader_file(T, mod, src, R):
                 continue
             if not mm or T.size(mm.group(2)) is None:
                 ok = False
-                break
+                continue
             fields.append((mm.group(1), mm.group(2)))
-        if ok and fields:
+        if ok and fields and not m.group(2) and name not in R.read_args:
             R.records[(mod, name)] = fields
             sizes = [T.size(t) for _, t in fields]
             if name in R.rec_sizes and R.rec_sizes[name] != sizes:
                 R.rec_sizes[name] = None
             else:
                 R.rec_sizes.setdefault(name, sizes)
+        elif raw_fields and name in R.read_args:
+            R.arg_records[(mod, name)] = {"pending": raw_fields}
     # tables
     for m in re.finditer(r"impl\s+(\w+)Marker\s*\{", src):
         name = m.group(1)
@@ -244,6 +688,44 @@ def parse_reader_file(T, mod, src, R):
             R.tables[(mod, name)] = parse_reader_table(T, mod, name, src, src[m.end():end - 1], R)
         except NotCovered as e:
             R.tables[(mod, name)] = {"error": "reader: " + str(e)}
+    # records read with arguments
+    for (md, name), v in list(R.arg_records.items()):
+        if md == mod and "pending" in v:
+            try:
+                R.arg_records[(md, name)] = parse_arg_record(T, R, mod, name, src, v["pending"])
+            except NotCovered as e:
+                R.arg_records[(md, name)] = {"error": "reader: " + str(e)}
+    # format enums: `impl FontRead for X { let format: T = data.read_at(0usize)?; match format { AMarker::FORMAT => Ok(Self::A(FontRead::read(data)?)), … } }`
+    for m in re.finditer(r"impl<'a>\s*FontRead<'a>\s+for\s+(\w+)<'a>\s*\{\s*fn read\(data:\s*FontData<'a>\)\s*->\s*Result<Self,\s*ReadError>\s*\{", src):
+        name = m.group(1)
+        end = balanced(src, m.end() - 1)
+        body = tight(src[m.end():end - 1])
+        if "match format" not in body:
+            continue
+        mm = re.fullmatch(r"let format:(\w+)=data\.read_at\((\d+)usize\)\?;match format\{(.*)\}", body)
+        if not mm:
+            R.enums[(mod, name)] = {"error": f"reader: dispatch form {body[:80]}"}
+            continue
+        arms, ok = [], True
+        rest_ = mm.group(3)
+        while rest_:
+            ma = re.match(r"(\w+)Marker::FORMAT=>(?:\{Ok\(Self::(\w+)\(FontRead::read\(data\)\?\)\)\},?|Ok\(Self::(\w+)\(FontRead::read\(data\)\?\)\),?)", rest_)
+            if ma:
+                arms.append((ma.group(2) or ma.group(3), ma.group(1)))
+                rest_ = rest_[ma.end():]
+            elif rest_ in ("other=>Err(ReadError::InvalidFormat(other.into()))", "other=>Err(ReadError::InvalidFormat(other.into())),"):
+                rest_ = ""
+            else:
+                ok = False
+                R.enums[(mod, name)] = {"error": f"reader: dispatch arm {rest_[:80]}"}
+                break
+        if ok:
+            if mm.group(2) != "0":
+                R.enums[(mod, name)] = {"error": f"reader: format read at offset {mm.group(2)}"}
+            elif T.size(mm.group(1)) is None:
+                R.enums[(mod, name)] = {"error": f"reader: format type {mm.group(1)}"}
+            else:
+                R.enums[(mod, name)] = {"hw": T.size(mm.group(1)), "arms": arms}
 
 def elem_sizes(T, R, ty, mod=None):
     s = T.size(ty)
@@ -255,31 +737,19 @@ def elem_sizes(T, R, ty, mod=None):
         return R.rec_sizes[ty], True
     raise NotCovered(f"array element type {ty} is not a scalar or a fixed-size record of scalars")
 
-def parse_reader_count(T, expr):
-    """count expression -> ('affine', var, a, b) | ('lit', n)"""
-    m = re.fullmatch(r"\((\w+) as usize\)", expr)
+def range_start_ok(e):
+    """the `start` of a generated range fn: 0, the end of the previous field, or — after conditional fields — the end of
+    the nearest present one (`a.map(|range| range.end).unwrap_or_else(|| …)` nested, or the older `.or_else` chain)"""
+    if e == "0" or re.fullmatch(r"self\.\w+_byte_range\(\)\.end", e):
+        return True
+    if re.fullmatch(r"self\.\w+_byte_range\(\)\.map\(\|range\|range\.end\)(?:\.or_else\(\|\|self\.\w+_byte_range\(\)\.map\(\|range\|range\.end\)\))*\.unwrap_or_else\(\|\|self\.\w+_byte_range\(\)\.end\)", e):
+        return True
+    m = re.fullmatch(r"self\.\w+_byte_range\(\)\.map\(\|range\|range\.end\)\.unwrap_or_else\(\|\|(.+)\)", e)
     if m:
-        return ("affine", m.group(1), 1, 0)
-    m = re.fullmatch(r"\(transforms::subtract\((\w+),(\d+)_usize\)\)", expr)
-    if m:
-        return ("affine", m.group(1), 1, int(m.group(2)))
-    m = re.fullmatch(r"\(transforms::half\((\w+)\)\)", expr)
-    if m:
-        return ("affine", m.group(1), 2, 0)
-    m = re.fullmatch(r"\((\d+)_usize\)", expr)
-    if m:
-        return ("lit", int(m.group(1)))
-    raise NotCovered(f"count expression {expr}")
-
-def parse_reader_len(T, R, expr):
-    """byte-length expression -> (count, elemty)"""
-    m = re.fullmatch(r"(.+)\.checked_mul\((\w+)::RAW_BYTE_LEN\)\.ok_or\(ReadError::OutOfBounds\)\?", expr)
-    if m:
-        return parse_reader_count(T, m.group(1)), m.group(2)
-    m = re.fullmatch(r"cursor\.remaining_bytes\(\)/(\w+)::RAW_BYTE_LEN\*(\w+)::RAW_BYTE_LEN", expr)
-    if m and m.group(1) == m.group(2):
-        return ("rest",), m.group(1)
-    raise NotCovered(f"length expression {expr[:90]}")
+        inner = m.group(1)
+        mb = re.fullmatch(r"\{(.+)\}", inner)
+        return range_start_ok(mb.group(1) if mb else inner)
+    return False
 
 def parse_reader_table(T, mod, name, src, marker_body, R):
     # 1. layout: the range fns in order
@@ -291,7 +761,11 @@ def parse_reader_table(T, mod, name, src, marker_body, R):
         if cond:
             mm = re.fullmatch(r"let start=self\.%s_byte_start\?;Some\(start\.\.start\+(.+)\)" % fname, b)
         else:
-            mm = re.fullmatch(r"let start=(?:0|self\.\w+_byte_range\(\)\.end|self\.\w+_byte_range\(\)\.map\(\|range\|range\.end\)(?:\.or_else\(\|\|self\.\w+_byte_range\(\)\.map\(\|range\|range\.end\)\))*\.unwrap_or_else\(\|\|self\.\w+_byte_range\(\)\.end\));start\.\.start\+(.+)", b)
+            mm = re.fullmatch(r"let start=(.+?);start\.\.start\+(.+)", b)
+            if mm and not range_start_ok(mm.group(1)):
+                mm = None
+            if mm:
+                mm = re.fullmatch(r"let start=(?:.+?);start\.\.start\+(.+)", b)
         if not mm:
             raise NotCovered(f"range fn of {fname}: {b[:100]}")
         ln = mm.group(1)
@@ -303,21 +777,43 @@ def parse_reader_table(T, mod, name, src, marker_body, R):
         else:
             raise NotCovered(f"range length of {fname}: {ln}")
     # 2. the read body
+    args = []
     m = re.search(r"impl<'a>\s*FontRead<'a>\s+for\s+%s<'a>\s*\{" % name, src)
-    if not m:
-        raise NotCovered("no FontRead impl (reads with external arguments)")
-    end = balanced(src, m.end() - 1)
-    body = src[m.end():end]
-    m2 = re.search(r"fn read\(data:\s*FontData<'a>\)\s*->\s*Result<Self,\s*ReadError>\s*\{", body)
-    e2 = balanced(body, m2.end() - 1)
-    stmts = split_statements(body[m2.end():e2 - 1])
+    if m:
+        end = balanced(src, m.end() - 1)
+        body = src[m.end():end]
+        m2 = re.search(r"fn read\(data:\s*FontData<'a>\)\s*->\s*Result<Self,\s*ReadError>\s*\{", body)
+        e2 = balanced(body, m2.end() - 1)
+        stmts = split_statements(body[m2.end():e2 - 1])
+    else:
+        m = re.search(r"impl<'a>\s*FontReadWithArgs<'a>\s+for\s+%s<'a>\s*\{" % name, src)
+        if not m:
+            raise NotCovered("no generated FontRead / FontReadWithArgs impl")
+        end = balanced(src, m.end() - 1)
+        body = src[m.end():end]
+        m2 = re.search(r"fn read_with_args\([^{]*\)\s*->\s*Result<Self,\s*ReadError>\s*\{", body)
+        if not m2:
+            raise NotCovered("read_with_args signature")
+        e2 = balanced(body, m2.end() - 1)
+        stmts = split_statements(body[m2.end():e2 - 1])
+        if not stmts:
+            raise NotCovered("empty read_with_args body")
+        args = parse_args_binding(stmts[0], R.read_args.get(name))
+        if args is None:
+            raise NotCovered(f"read_with_args does not start by binding its arguments: {stmts[0][:80]}")
+        for (an, aty) in args:
+            if T.size(aty) is None:
+                raise NotCovered(f"argument {an} has non-scalar type {aty}")
+        stmts = stmts[1:]
+    nstmts = len(stmts)
     if not stmts or stmts[0] != "let mut cursor=data.cursor()":
         raise NotCovered("read body does not start with a cursor")
     stmts = stmts[1:]
     if not stmts or not stmts[-1].startswith("cursor.finish("):
         raise NotCovered("read body does not end with cursor.finish")
     stmts = stmts[:-1]
-    var_ty = {}
+    var_ty = dict(args)
+    arg_names = [a for a, _ in args]
     fields = []
     i = 0
 
@@ -369,13 +865,12 @@ def parse_reader_table(T, mod, name, src, marker_body, R):
                 mm = re.fullmatch(r"let %s_byte_len=(.+)" % fname, s)
             if not mm:
                 raise NotCovered(f"length of {fname}: {s[:100]}")
-            cnt, ety = parse_reader_len(T, R, mm.group(1))
+            cnt, size = parse_reader_len(T, R, mm.group(1), var_ty, arg_names)
             if cnt[0] == "affine":
                 if cnt[1] not in var_ty:
                     raise NotCovered(f"count variable {cnt[1]} not read")
                 if not T.unsigned(var_ty[cnt[1]]):
                     raise NotCovered(f"count variable {cnt[1]} has signed/unknown type {var_ty[cnt[1]]}")
-            sizes, isrec = elem_sizes(T, R, ety, mod)
             s = take()
             if cond:
                 ok = s == "if let Some(value)=%s_byte_len{cursor.advance_by(value);}" % fname
@@ -383,14 +878,25 @@ def parse_reader_table(T, mod, name, src, marker_body, R):
                 ok = s == f"cursor.advance_by({fname}_byte_len)"
             if not ok:
                 raise NotCovered(f"advance of {fname}: {s[:100]}")
-            f.update(kind="array", count=cnt, elem=sizes, elemty=ety, isrec=isrec)
+            if size[0] == "const":
+                sizes, isrec = elem_sizes(T, R, size[1], mod)
+                f.update(kind="array", count=cnt, elem=sizes, elemty=size[1], isrec=isrec)
+            elif size[0] == "compute":
+                for a in size[2]:
+                    if a not in var_ty or not T.unsigned(var_ty[a]):
+                        raise NotCovered(f"size argument {a} is not an unsigned field / argument read before")
+                f.update(kind="arrayV", count=cnt, size=size, elemty=size[1])
+            else:
+                vs = R.var_sizes.get(size[1])
+                if vs is None:
+                    raise NotCovered(f"VarSize for {size[1]} is not modelled")
+                f.update(kind="arrayL", count=cnt, hw=vs["hw"], item=vs["item"], elemty=size[1])
         fields.append(f)
     if i != len(stmts):
         raise NotCovered(f"unconsumed read statement: {stmts[i][:100]}")
     # 3. getters: which fields are visible, and element type of arrays must agree
-    m = re.search(r"impl<'a>\s*%s<'a>\s*\{" % name, src)
     getters = set()
-    if m:
+    for m in re.finditer(r"impl<'a>\s*%s<'a>\s*\{" % name, src):
         e = balanced(src, m.end() - 1)
         for g in re.finditer(r"pub fn (\w+)\(&self\)\s*->\s*([^{]+)\{", src[m.end():e]):
             getters.add(g.group(1))
@@ -403,9 +909,16 @@ def parse_reader_table(T, mod, name, src, marker_body, R):
                         want |= {f"&'a[{inner}]", f"Option<&'a[{inner}]>"}
                     if gty not in want:
                         raise NotCovered(f"getter of {gname} returns {gty}")
+                if f["name"] == gname and f["kind"] == "arrayV":
+                    e_ = f['elemty']
+                    if gty not in (f"ComputedArray<'a,{e_}<'a>>", f"ComputedArray<'a,{e_}>", e_, f"{e_}<'a>"):
+                        raise NotCovered(f"getter of {gname} returns {gty}")
+                if f["name"] == gname and f["kind"] == "arrayL":
+                    if gty != f"VarLenArray<'a,{f['elemty']}<'a>>":
+                        raise NotCovered(f"getter of {gname} returns {gty}")
     for f in fields:
         f["getter"] = f["name"] in getters
-    return {"fields": fields, "statements": len(stmts) + 2}
+    return {"fields": fields, "statements": nstmts + 1, "args": args}
 
 # ------------------------------------------------------------------------------------------------
 # writer side
@@ -455,7 +968,8 @@ def parse_writer_file(T, mod, src):
     return out
 
 def writer_field_item(T, W, mod, fty):
-    """type of an owned field -> ('scalar', size, isoffset) | ('array', sizes, fixed, isrec)"""
+    """type of an owned field -> ('scalar', size, isoffset) | ('array', sizes, fixed, isrec)
+    | ('arrayV', pre, tail, fixed) | ('arrayL', hw, item)"""
     m = re.fullmatch(r"(?:Nullable)?OffsetMarker<(.+)>", fty)
     if m:
         args = split_top(m.group(1), ",")
@@ -472,38 +986,111 @@ def writer_field_item(T, W, mod, fty):
     m = re.fullmatch(r"Vec<(.+)>", fty)
     if m:
         inner = m.group(1)
-        it = None
-        try:
-            it = writer_field_item(T, W, mod, inner)
-        except NotCovered:
-            pass
-        if it and it[0] == "scalar":
-            return ("array", [it[1]], None, False)
-        sizes = writer_record_sizes(T, W, mod, inner)
-        return ("array", sizes, None, True)
-    raise NotCovered(f"field type {fty}")
+        lp = len_prefixed_shape(T, W, mod, inner)
+        if lp is not None:
+            return ("arrayL", lp[0], lp[1])
+        sh = flat_shape(T, W, mod, inner)
+        if sh[0] == "fixed":
+            return ("array", sh[1], None, sh[2])
+        return ("arrayV", sh[1], sh[2], None)
+    # one inline record (`self.value_record.write_into(writer)`)
+    sh = flat_shape(T, W, mod, fty)
+    if sh[0] == "fixed":
+        return ("array", sh[1], 1, True)
+    return ("arrayV", sh[1], sh[2], 1)
 
-def writer_record_sizes(T, W, mod, rname):
-    """a record written element-wise: every statement `self.f.write_into(writer)` of a scalar / offset field"""
+def find_writer_record(W, mod, rname):
     rec = W.get(mod, {}).get(rname)
     if rec is None:
         for m2, d in W.items():
             if rname in d:
-                rec = d[rname]
-                mod = m2
-                break
+                return d[rname], m2
+    return rec, mod
+
+def len_prefixed_shape(T, W, mod, rname):
+    """a record whose generated writer is `u<N>::try_from(array_len(&self.f)).unwrap()` followed by `self.f` with
+    `f: Vec<fixed-size record>`: -> (hw, item sizes), else None"""
+    if not re.fullmatch(r"\w+", rname):
+        return None
+    rec, rmod = find_writer_record(W, mod, rname)
+    if rec is None or len(rec["stmts"]) != 2:
+        return None
+    m1 = re.fullmatch(COUNT_RES[0][0] + r"\.write_into\(writer\)", rec["stmts"][0])
+    m2 = re.fullmatch(r"self\.(\w+)\.write_into\(writer\)", rec["stmts"][1])
+    if not m1 or not m2 or m1.group(2) != m2.group(1) or m2.group(1) not in rec["fields"]:
+        return None
+    mv = re.fullmatch(r"Vec<(.+)>", rec["fields"][m2.group(1)])
+    if not mv:
+        return None
+    sh = flat_shape(T, W, rmod, mv.group(1))
+    if sh[0] != "fixed":
+        return None
+    return (T.size(m1.group(1)), sh[1])
+
+def shape_concat(a, b, what):
+    if a[0] == "fixed" and b[0] == "fixed":
+        return ("fixed", a[1] + b[1], True)
+    if a[0] == "fixed":
+        return ("var", a[1] + b[1], b[2])
+    if b[0] == "fixed":
+        if all(w == a[2] for w in b[1]):
+            return a
+        raise NotCovered(f"{what}: fixed scalars of another width after a variable-length part")
+    if a[2] == b[2] and all(w == b[2] for w in b[1]):
+        return a
+    raise NotCovered(f"{what}: two variable-length parts of different scalar widths")
+
+def flat_shape(T, W, mod, ty, depth=0):
+    """how the writer of `ty` lays out one value, as a flat sequence of scalars:
+    ('fixed', widths, isrec) | ('var', prefix widths, tail width) (= the prefix, then any number of tail-width scalars)"""
+    if depth > 6:
+        raise NotCovered("record nesting")
+    m = re.fullmatch(r"(?:Nullable)?OffsetMarker<(.+)>", ty)
+    if m:
+        args = split_top(m.group(1), ",")
+        w = args[1] if len(args) > 1 else None
+        if w not in OFFSET_W:
+            raise NotCovered(f"offset width {w}")
+        return ("fixed", [OFFSET_W[w]], False)
+    s = T.size(ty)
+    if s is not None:
+        return ("fixed", [s], False)
+    if ty == "ValueRecord" and "ValueRecord" not in W.get(mod, {}):
+        # (mvar has a generated fixed-size record of the same name)
+        # hand-written `impl FontWrite for ValueRecord` (write-fonts/src/tables/gpos/value_record.rs): one 16-bit scalar /
+        # offset per flag of its format — any number of 2-byte scalars
+        return ("var", [], 2)
+    m = re.fullmatch(r"Vec<(.+)>", ty)
+    if m:
+        inner = flat_shape(T, W, mod, m.group(1), depth + 1)
+        ws = set(inner[1]) | ({inner[2]} if inner[0] == "var" else set())
+        if len(ws) != 1:
+            raise NotCovered(f"a Vec of records with scalars of different widths inside an element ({ty})")
+        return ("var", [], ws.pop())
+    if not re.fullmatch(r"\w+", ty):
+        raise NotCovered(f"field type {ty}")
+    rec, rmod = find_writer_record(W, mod, ty)
     if rec is None:
-        raise NotCovered(f"element type {rname} has no generated writer")
-    sizes = []
-    for s in rec["stmts"]:
-        mm = re.fullmatch(r"self\.(\w+)\.write_into\(writer\)", s)
-        if not mm or mm.group(1) not in rec["fields"]:
-            raise NotCovered(f"element record {rname}: statement {s[:80]}")
-        it = writer_field_item(T, W, mod, rec["fields"][mm.group(1)])
-        if it[0] != "scalar":
-            raise NotCovered(f"element record {rname} has a non-scalar field {mm.group(1)}")
-        sizes.append(it[1])
-    return sizes
+        raise NotCovered(f"element type {ty} has no generated writer")
+    out = ("fixed", [], True)
+    for st in rec["stmts"]:
+        mm = re.fullmatch(r"self\.(\w+)\.write_into\(writer\)", st)
+        if mm and mm.group(1) in rec["fields"]:
+            part = flat_shape(T, W, rmod, rec["fields"][mm.group(1)], depth + 1)
+        else:
+            # constants / counts / hand-written computed scalars inside an element record: one scalar of the cast type
+            mc = re.fullmatch(r"\((?:.+?) ?as (\w+)\)\.write_into\(writer\)", st)
+            mk = None
+            for (rx, _, _) in COUNT_RES:
+                mk = mk or re.fullmatch(rx + r"\.write_into\(writer\)", st)
+            if mk:
+                part = ("fixed", [T.size(mk.group(1))], True)
+            elif mc and T.size(mc.group(1)) is not None:
+                part = ("fixed", [T.size(mc.group(1))], True)
+            else:
+                raise NotCovered(f"element record {ty}: statement {st[:80]}")
+        out = shape_concat(out, part, f"element record {ty}")
+    return (out[0], out[1], True) if out[0] == "fixed" else out
 
 COUNT_RES = [
     (r"\((u16|u32|u8)::try_from\(array_len\(&self\.(\w+)\)\)\.unwrap\(\)\)", 1, 0),
@@ -537,6 +1124,10 @@ def parse_writer(T, W, mod, name, wd, computed_ids):
             it = writer_field_item(T, W, mod, mo.group(1) if mo else fty)
             if it[0] == "scalar":
                 return {"name": fname, "kind": "scalar", "src": ".field", "size": it[1], "offset": it[2], "opt": bool(mo), "ty": fty}
+            if it[0] == "arrayV":
+                return {"name": fname, "kind": "arrayV", "pre": it[1], "tail": it[2], "fixed": it[3], "isrec": True, "opt": bool(mo)}
+            if it[0] == "arrayL":
+                return {"name": fname, "kind": "arrayL", "hw": it[1], "item": it[2], "fixed": None, "isrec": True, "opt": bool(mo)}
             return {"name": fname, "kind": "array", "elem": it[1], "fixed": it[2], "isrec": it[3], "opt": bool(mo)}
         for (rx, a, b) in COUNT_RES:
             mm = re.fullmatch(rx, expr)
@@ -556,6 +1147,20 @@ def parse_writer(T, W, mod, name, wd, computed_ids):
                 raise NotCovered(f"computed field of type {mm.group(2)}")
             k = computed_ids.setdefault(f"{name}::{mm.group(1)}", len(computed_ids))
             return {"name": None, "kind": "scalar", "src": f".computed {k}", "size": sz, "computed": mm.group(1), "ty": mm.group(2)}
+        mm = re.fullmatch(r"\(self\.(compile_\w+)\(\)\)", expr)
+        if mm:
+            rets = T.hand_fn_ret.get(mm.group(1), set())
+            if len(rets) != 1:
+                raise NotCovered(f"written expression {expr}: return type of the hand-written fn not found ({sorted(rets)})")
+            rty = next(iter(rets))
+            sz = T.size(rty)
+            if sz is None:
+                raise NotCovered(f"written expression {expr} of hand-written non-scalar type {rty}")
+            k = computed_ids.setdefault(f"{name}::{mm.group(1)}", len(computed_ids))
+            return {"name": None, "kind": "scalar", "src": f".computed {k}", "size": sz, "computed": mm.group(1), "ty": rty}
+        mm = re.fullmatch(r"\((\w+)::(\w+) as (\w+)\)", expr)
+        if mm and mm.group(1) == mm.group(3) and (mm.group(1), mm.group(2)) in T.enum_consts and T.size(mm.group(3)) is not None:
+            return {"name": None, "kind": "scalar", "src": f".const {T.enum_consts[(mm.group(1), mm.group(2))]}", "size": T.size(mm.group(3)), "ty": mm.group(3)}
         mm = re.fullmatch(r"\((.+) as (\w+)\)", expr)
         if mm:
             v = const_value(mm.group(1))
@@ -660,29 +1265,40 @@ def lean_list(xs):
 def lean_opt_cond(c):
     return "none" if c is None else f"(some ({c[0]}, {c[1]}))"
 
+ARG_BASE = 1000
+
 def build_pair(T, W, R, mod, name, wd, computed_ids):
     if wd["generic"]:
         raise NotCovered("generic type")
     rkey = wd["reader"] or (mod, name)
     wst = parse_writer(T, W, mod, name, wd, computed_ids)
     # reader layout
+    rargs = []
     if rkey in R.tables:
         rt = R.tables[rkey]
         if "error" in rt:
             raise NotCovered(rt["error"])
         rfields = rt["fields"]
+        rargs = rt.get("args", [])
         kind = "table"
     elif rkey in R.records:
         rfields = [{"name": n, "cond": None, "kind": "scalar", "ty": t, "size": T.size(t), "getter": True}
                    for (n, t) in R.records[rkey]]
         kind = "record"
+    elif rkey in R.arg_records:
+        rt = R.arg_records[rkey]
+        if "error" in rt:
+            raise NotCovered(rt["error"])
+        rfields = rt["fields"]
+        rargs = rt["args"]
+        kind = "record"
     else:
-        raise NotCovered(f"reader {rkey[0]}::{rkey[1]} is not a generated table marker or fixed-size record")
+        raise NotCovered(f"reader {rkey[0]}::{rkey[1]} is not a generated table marker or record (hand-written reader)")
     # `from_obj_ref` (the third generated piece): every owned field must be converted from the getter of the same name
     # (`f: obj.f()`, `f: obj.f().to_owned_obj(..)`, `f: obj.f().to_owned_table()`, `f: convert(obj.f())` …)
     if wd.get("from_obj") is not None:
         for d in wst:
-            if d.get("name") and (d["kind"] == "array" or d.get("src") == ".field"):
+            if d.get("name") and (d["kind"] != "scalar" or d.get("src") == ".field"):
                 e = wd["from_obj"].get(d["name"])
                 if e is None or not re.search(r"\bobj\.%s\((?:offset_data)?\)" % d["name"], e):
                     raise NotCovered(f"from_obj_ref converts field {d['name']} from: {e}")
@@ -691,6 +1307,14 @@ def build_pair(T, W, R, mod, name, wd, computed_ids):
     mnames = [remove_offset_from_field_name(f["name"]) if is_offset_ty(f.get("ty") if f["kind"] == "scalar" else f.get("elemty")) else f["name"]
               for f in rfields]
     ids = {n: i for i, n in enumerate(mnames)}
+    # reader-side names (count / size / condition variables are reader locals = reader field names, or arguments)
+    rids = {f["name"]: i for i, f in enumerate(rfields)}
+    for k, (an, _) in enumerate(rargs):
+        if an in rids:
+            raise NotCovered(f"argument {an} shadows a field")
+        rids[an] = ARG_BASE + k
+    if len(rfields) >= ARG_BASE:
+        raise NotCovered("too many fields")
     extra = []
 
     def fid(n):
@@ -723,10 +1347,17 @@ def build_pair(T, W, R, mod, name, wd, computed_ids):
                 info = ("count", fid(src[1]), src[2], src[3])
                 src = f".count {fid(src[1])} {src[2]} {src[3]}"
             item = f".scalar ({src}) {d['size']}"
-        else:
+        elif d["kind"] == "array":
             fixed = "none" if d["fixed"] is None else f"(some {d['fixed']})"
             item = f".array {lean_list([str(x) for x in d['elem']])} {fixed}"
             info = ("array", d["fixed"])
+        elif d["kind"] == "arrayV":
+            fixed = "none" if d["fixed"] is None else f"(some {d['fixed']})"
+            item = f".arrayV {lean_list([str(x) for x in d['pre']])} {d['tail']} {fixed}"
+            info = ("array", d["fixed"])
+        else:
+            item = f".arrayL {d['hw']} {lean_list([str(x) for x in d['item']])}"
+            info = ("array", None)
         if cond is None:
             winfo[i] = info
         else:
@@ -739,17 +1370,17 @@ def build_pair(T, W, R, mod, name, wd, computed_ids):
         cond = None
         if f["cond"] is not None:
             cv, ctext = f["cond"]
-            if cv not in ids:
+            if cv not in rids:
                 raise NotCovered(f"reader condition variable {cv} is not a field")
-            cond = (ids[cv], ctext)
+            cond = (rids[cv], ctext)
         if f["kind"] == "scalar":
             item = f".scalar {f['size']}"
         else:
             c = f["count"]
             if c[0] == "affine":
-                if c[1] not in ids:
+                if c[1] not in rids:
                     raise NotCovered(f"reader count variable {c[1]} is not a field")
-                g = ids[c[1]]
+                g = rids[c[1]]
                 cnt = f"(.affine {g} {c[2]} {c[3]})"
                 wi = winfo.get(g, ("missing",))
                 if wi == ("count", i, c[2], c[3]):
@@ -760,6 +1391,18 @@ def build_pair(T, W, R, mod, name, wd, computed_ids):
                 elif wi[0] == "count" and wi[2:] == (c[2], c[3]):
                     assumes.append(f".sameLen {i} {wi[1]}")
                     assume_text.append(f"len({names[i]}) = len({(names + extra)[wi[1]]})")
+                elif wi == ("other",):
+                    # the count field is a constant / a hand-written computed value: the reader's `(x as usize)` (…) is
+                    # an expression of a written field the writer does not tie to the array
+                    ce = ('var', c[1])
+                    if c[3]:
+                        ce = ('sub', ce, ('lit', c[3]))
+                    if c[2] != 1:
+                        ce = ('div', ce, c[2])
+                    e = nx_lean(ce, rids)
+                    cnt = f"(.expr {e})"
+                    assumes.append(f".lenIsExpr {i} {e}")
+                    assume_text.append(f"len({names[i]}) = {nx_text(ce)} (a constant / hand-written computed field)")
                 else:
                     raise NotCovered(f"reader sizes {names[i]} with {names[g]}, which the writer writes as {wi}")
             elif c[0] == "lit":
@@ -768,22 +1411,160 @@ def build_pair(T, W, R, mod, name, wd, computed_ids):
                 if wi == ("array", None):
                     assumes.append(f".lenIs {i} {c[1]}")
                     assume_text.append(f"len({names[i]}) = {c[1]}")
+            elif c[0] == "expr":
+                e = nx_lean(c[1], rids)
+                cnt = f"(.expr {e})"
+                assumes.append(f".lenIsExpr {i} {e}")
+                assume_text.append(f"len({names[i]}) = {nx_text(c[1])}")
             else:
                 cnt = ".rest"
-            item = f".array {cnt} {lean_list([str(x) for x in f['elem']])}"
+            if f["kind"] == "array":
+                item = f".array {cnt} {lean_list([str(x) for x in f['elem']])}"
+            elif f["kind"] == "arrayV":
+                segs = compute_size_segs(T, R, f["size"][1], rkey[0], [('var', a) for a in f["size"][2]])
+                sl = segs_lean(segs, rids)
+                item = f".arrayV {cnt} {sl}"
+                assumes.append(f".elemLen {i} {sl}")
+                assume_text.append(f"every element of {names[i]} has the scalars {segs_text(segs)}")
+            else:
+                item = f".arrayL {cnt} {f['hw']} {lean_list([str(x) for x in f['item']])}"
         rl.append(f"⟨{i}, {lean_opt_cond(cond)}, {item}⟩")
     shown = []
     for f in rfields:
-        if f["kind"] == "array":
-            shown.append("R" if f.get("isrec") else "A")
-        else:
+        if f["kind"] == "scalar":
             shown.append("S")
+        elif f["kind"] == "array":
+            shown.append("R" if f.get("isrec") else "A")
+        elif f["kind"] == "arrayV":
+            shown.append("V1" if f["count"] == ("lit", 1) else "R")
+        else:
+            shown.append("L%d" % len(f["item"]))
     # hidden from the correspondence rendering: fields without a getter, and scalars wider than 8 bytes (the
     # traversal renders them as `Unknown`)
     hidden = [(not f.get("getter", True)) or (f["kind"] == "scalar" and f["size"] > 8) for f in rfields]
     return {"kind": kind, "assumes": assumes, "assume_text": assume_text, "names": names + extra, "w": wl, "r": rl, "show": shown, "hidden": hidden,
             "computed": [d["computed"] for d in wst if d.get("computed")],
-            "nstmts": len(wd["stmts"]), "reader": rkey}
+            "nstmts": len(wd["stmts"]), "reader": rkey, "args": [a for a, _ in rargs],
+            "features": sorted(set(
+                (["args"] if rargs else []) +
+                [{"arrayV": "computed-size", "arrayL": "varlen"}[f["kind"]] for f in rfields if f["kind"] in ("arrayV", "arrayL")] +
+                (["count-expr"] if any(f["kind"] != "scalar" and f["count"][0] == "expr" for f in rfields) else [])))}
+
+def parse_var_sizes(T, R, repo):
+    """hand-written `impl VarSize for X<'_>` (read-fonts/src/tables/*.rs) whose item length is
+    `count * Item::RAW_BYTE_LEN + Size::RAW_BYTE_LEN` with the hand-written `FontRead` reading exactly that
+    (`cursor.read_be()` the count, `cursor.read_array(count)` the items)"""
+    for f in sorted(glob.glob(os.path.join(repo, "read-fonts/src/tables/*.rs"))):
+        txt = strip_comments(open(f).read())
+        for m in re.finditer(r"impl VarSize for (\w+)<'_>\s*\{", txt):
+            e = balanced(txt, m.end() - 1)
+            body = tight(txt[m.end():e - 1])
+            mm = re.fullmatch(r"type Size=(\w+);fn read_len_at\(data:FontData,pos:usize\)->Option<usize>\{Some\(data\.read_at::<(\w+)>\(pos\)\.ok\(\)\?as usize\*(\w+)::RAW_BYTE_LEN\+(\w+)::RAW_BYTE_LEN\)\}", body)
+            if not mm or not (mm.group(1) == mm.group(2) == mm.group(4)):
+                continue
+            name = m.group(1)
+            mr = re.search(r"impl<'a> FontRead<'a> for %s<'a>\s*\{" % name, txt)
+            if not mr:
+                continue
+            e2 = balanced(txt, mr.end() - 1)
+            rb = tight(txt[mr.end():e2 - 1])
+            if not re.fullmatch(r"fn read\(data:FontData<'a>\)->Result<Self,ReadError>\{let mut cursor=data\.cursor\(\);let (\w+):BigEndian<%s>=cursor\.read_be\(\)\?;let (\w+)=cursor\.read_array\(\1\.get\(\)as _\)\?;Ok\(%s\{\1,\2\}\)\}" % (mm.group(1), name), rb):
+                continue
+            try:
+                item, _ = elem_sizes(T, R, mm.group(3), os.path.basename(f)[:-3])
+            except NotCovered:
+                continue
+            R.var_sizes[name] = {"hw": T.size(mm.group(1)), "item": item}
+            # the same hand-written `FontRead` is the reader layout of the record itself
+            mf = re.search(r"let (\w+):BigEndian<\w+>=cursor\.read_be\(\)\?;let (\w+)=cursor\.read_array", rb)
+            R.arg_records[(os.path.basename(f)[:-3], name)] = {"args": [], "statements": 4, "hand": True, "fields": [
+                {"name": mf.group(1), "cond": None, "kind": "scalar", "ty": mm.group(1), "size": T.size(mm.group(1)), "getter": True},
+                {"name": mf.group(2), "cond": None, "kind": "array", "count": ("affine", mf.group(1), 1, 0), "elem": item,
+                 "elemty": mm.group(3), "isrec": len(item) > 1, "getter": True}]}
+
+def parse_enum_writers(src):
+    """generated `impl FontWrite for Enum { fn write_into(&self, writer) { match self { Self::A(item) => item.write_into(writer), … } } }`"""
+    src = re.sub(r"#\[[^\]]*\]", "", src)
+    out = {}
+    enums = {}
+    for m in re.finditer(r"pub enum (\w+)\s*\{", src):
+        e = balanced(src, m.end() - 1)
+        body = re.sub(r"///.*", "", src[m.end():e - 1])
+        vs = []
+        for part in split_top(body, ","):
+            part = tight(part)
+            mm = re.fullmatch(r"(\w+)\((\w+)\)", part)
+            if mm:
+                vs.append((mm.group(1), mm.group(2)))
+        enums[m.group(1)] = vs
+    for m in re.finditer(r"impl\s+FontWrite\s+for\s+(\w+)\s*\{", src):
+        name = m.group(1)
+        if name not in enums:
+            continue
+        end = balanced(src, m.end() - 1)
+        body = src[m.end():end]
+        m2 = re.search(r"fn write_into\(&self,\s*writer:\s*&mut TableWriter\)\s*\{", body)
+        if not m2:
+            continue
+        e2 = balanced(body, m2.end() - 1)
+        b = tight(body[m2.end():e2 - 1])
+        mm = re.fullmatch(r"match self\{(.*)\}", b)
+        if not mm:
+            continue
+        arms = []
+        ok = True
+        for arm in split_top(mm.group(1), ","):
+            if not arm:
+                continue
+            ma = re.fullmatch(r"Self::(\w+)\((\w+)\)=>\2\.write_into\(writer\)", arm)
+            if not ma:
+                ok = False
+                break
+            arms.append(ma.group(1))
+        if not ok:
+            out[name] = {"error": f"writer: dispatch arm {arm[:80]}"}
+            continue
+        tys = dict(enums[name])
+        if any(a not in tys for a in arms):
+            out[name] = {"error": "writer: arm without a tuple variant"}
+            continue
+        rd = re.search(r"FromTableRef<read_fonts::tables::(\w+)::(\w+)(?:<[^>]*>)?>\s+for\s+%s\b" % name, src) or \
+            re.search(r"FromObjRef<read_fonts::tables::(\w+)::(\w+)(?:<[^>]*>)?>\s+for\s+%s\b" % name, src)
+        out[name] = {"arms": [(a, tys[a]) for a in arms], "reader": (rd.group(1), rd.group(2)) if rd else None}
+    return out
+
+def parse_child_args(rsrc):
+    """generated getters that resolve an offset with arguments: reader type -> offset field -> [argument source names]
+    (`let args = self.a();` / `let args = (self.a(), self.b());` then `self.f_offset().resolve_with_args(data, &args)` or
+    `ArrayOfOffsets::new(self.f_offsets(), data, args)`)"""
+    out = {}
+    for mod, src in rsrc.items():
+        src = re.sub(r"#\[[^\]]*\]", "", src)
+        for m in re.finditer(r"impl(?:<'a>)?\s*(\w+)(?:<'a>)?\s*\{", src):
+            e = balanced(src, m.end() - 1)
+            body = src[m.end():e]
+            for g in re.finditer(r"pub fn (\w+)(?:<'a>)?\(&self(?:,\s*data:\s*FontData<'a>)?\)\s*->\s*([^{]+)\{", body):
+                ge = balanced(body, g.end() - 1)
+                b = tight(body[g.end():ge - 1])
+                if not b.startswith("let data=self.data;"):
+                    b = "let data=self.data;" + b      # record-level getter: `data` is a parameter
+                mm = re.fullmatch(r"let data=self\.data;let args=(.+);self\.(\w+)\(\)\.resolve_with_args\(data,&args\)", b) or \
+                    re.fullmatch(r"let data=self\.data;let offsets=self\.(\w+)\(\);let args=(.+);ArrayOf(?:Nullable)?Offsets::new\(offsets,data,args\)", b)
+                if not mm:
+                    continue
+                a, f = (mm.group(1), mm.group(2)) if "resolve_with_args" in b else (mm.group(2), mm.group(1))
+                ma = re.fullmatch(r"\((.*)\)", a)
+                parts = split_top(ma.group(1), ",") if ma else [a]
+                names = []
+                for part in parts:
+                    mp = re.fullmatch(r"self\.(\w+)\(\)", part)
+                    if not mp:
+                        names = None
+                        break
+                    names.append(mp.group(1))
+                if names:
+                    out.setdefault(m.group(1), {})[f] = names
+    return out
 
 def main():
     ap = argparse.ArgumentParser()
@@ -794,31 +1575,48 @@ def main():
     a = ap.parse_args()
     T = Types(a.repo)
     R = Reader()
-    rfiles = sorted(glob.glob(os.path.join(a.repo, "read-fonts/generated/generated_*.rs")))
-    # two passes so record sizes of every module are known before tables are parsed
+    rfiles = sorted(glob.glob(os.path.join(a.repo, "read-fonts/generated/generated_*.rs"))) + \
+        [os.path.join(a.repo, "read-fonts/generated/font.rs")]
+    # two passes so record sizes, argument types and ComputeSize impls of every module are known before tables are parsed
     rsrc = {}
     for f in rfiles:
-        mod = os.path.basename(f)[len("generated_"):-3]
+        if not os.path.exists(f):
+            continue
+        b = os.path.basename(f)
+        mod = b[len("generated_"):-3] if b.startswith("generated_") else b[:-3]
         rsrc[mod] = strip_comments(open(f).read())
     for mod, src in rsrc.items():
         tmp = Reader()
         parse_reader_file(T, mod, src, tmp)
         R.records.update(tmp.records)
+        R.read_args.update(tmp.read_args)
+        R.compute_sizes.update(tmp.compute_sizes)
+        R.formats.update(tmp.formats)
         for k, v in tmp.rec_sizes.items():
             if k in R.rec_sizes and R.rec_sizes[k] != v:
                 R.rec_sizes[k] = None
             else:
                 R.rec_sizes.setdefault(k, v)
+    parse_var_sizes(T, R, a.repo)
     for mod, src in rsrc.items():
         tmp = Reader()
         tmp.rec_sizes = R.rec_sizes
         tmp.records = R.records
+        tmp.read_args = R.read_args
+        tmp.compute_sizes = R.compute_sizes
+        tmp.formats = R.formats
+        tmp.var_sizes = R.var_sizes
         parse_reader_file(T, mod, src, tmp)
         R.tables.update(tmp.tables)
+        R.arg_records.update(tmp.arg_records)
+        R.enums.update(tmp.enums)
     W = {}
+    WE = {}
     for f in sorted(glob.glob(os.path.join(a.repo, "write-fonts/generated/generated_*.rs"))):
         mod = os.path.basename(f)[len("generated_"):-3]
-        W[mod] = parse_writer_file(T, mod, strip_comments(open(f).read()))
+        wsrc = strip_comments(open(f).read())
+        W[mod] = parse_writer_file(T, mod, wsrc)
+        WE[mod] = parse_enum_writers(wsrc)
     covered, not_covered = {}, {}
     computed_ids = {}
     total = 0
@@ -833,6 +1631,40 @@ def main():
                 stmts_consumed += covered[key]["nstmts"]
             except NotCovered as e:
                 not_covered[key] = str(e)
+    # format enums
+    enums_cov, enums_not = {}, {}
+    for mod in sorted(WE):
+        for name in sorted(WE[mod]):
+            key = f"{mod}_{name}"
+            we = WE[mod][name]
+            try:
+                if "error" in we:
+                    raise NotCovered(we["error"])
+                rkey = we["reader"] or (mod, name)
+                re_ = R.enums.get(rkey)
+                if re_ is None:
+                    raise NotCovered(f"reader {rkey[0]}::{rkey[1]} has no generated `match format` dispatch (hand-written reader)")
+                if "error" in re_:
+                    raise NotCovered(re_["error"])
+                # the two match statements, arm by arm (variant names); the table types are paired through the covered pairs
+                wa, ra = we["arms"], re_["arms"]
+                if [v for v, _ in wa] != [v for v, _ in ra]:
+                    raise NotCovered(f"writer arms {[v for v, _ in wa]} vs reader arms {[v for v, _ in ra]}")
+                variants = []
+                for (v, wty), (_, rty) in zip(wa, ra):
+                    pk = f"{mod}_{wty}"
+                    if pk not in covered:
+                        raise NotCovered(f"variant {v} ({wty}): " + not_covered.get(pk, "no generated writer"))
+                    if covered[pk]["reader"][1] != rty:
+                        raise NotCovered(f"variant {v}: writer type {wty} reads as {covered[pk]['reader'][1]}, the reader arm builds {rty}")
+                    if covered[pk]["args"]:
+                        raise NotCovered(f"variant {v} ({wty}) is read with arguments")
+                    if rty not in R.formats:
+                        raise NotCovered(f"variant {v}: no Format constant for {rty}Marker")
+                    variants.append((v, pk, R.formats[rty][1]))
+                enums_cov[key] = {"type": name, "hw": re_["hw"], "variants": variants}
+            except NotCovered as e:
+                enums_not[key] = str(e)
     # driver lookup is by bare type name: drop ambiguous names from the registry (still proved)
     by_name = {}
     for k, v in covered.items():
@@ -847,7 +1679,8 @@ def main():
     L.append("")
     for k in sorted(covered):
         v = covered[k]
-        L.append(f"/-- `{v['type']}` (write-fonts generated_{k.split('_')[0]}.rs ↔ read-fonts {v['reader'][0]}::{v['reader'][1]}, {v['kind']}) -/")
+        argtxt = f", arguments {', '.join(v['args'])} = ids {ARG_BASE}…" if v["args"] else ""
+        L.append(f"/-- `{v['type']}` (write-fonts generated_{k.split('_')[0]}.rs ↔ read-fonts {v['reader'][0]}::{v['reader'][1]}, {v['kind']}{argtxt}) -/")
         L.append(f"def {k}_w : List WF := {lean_list(v['w'])}")
         L.append(f"def {k}_r : List RF := {lean_list(v['r'])}")
         if v["assumes"]:
@@ -855,10 +1688,17 @@ def main():
             L.append(f"def {k}_assumes : List Assume := {lean_list(v['assumes'])}")
             L.append(f"theorem {k}_compat_under : compatU {k}_assumes {k}_w {k}_r = true := by decide +kernel")
         else:
+            L.append(f"def {k}_assumes : List Assume := []")
             L.append(f"theorem {k}_compat : compat {k}_w {k}_r = true := by decide +kernel")
         L.append("")
-    L.append("/-- registry for the driver: type name ↦ (field names, per reader field: S scalar / A scalar array / R record array, hidden, writer, reader) -/")
-    L.append("def allPairs : List (String × List String × List String × List Bool × List WF × List RF) := [")
+    for k in sorted(enums_cov):
+        v = enums_cov[k]
+        L.append(f"/-- format enum `{v['type']}`: " + ", ".join(f"{n} = {fmt}" for (n, _, fmt) in v["variants"]) + " -/")
+        L.append(f"def {k}_variants : List Variant := " + lean_list([f"⟨{fmt}, {pk}_w, {pk}_r, {pk}_assumes⟩" for (_, pk, fmt) in v["variants"]]))
+        L.append(f"theorem {k}_dispatch : enumCompat {v['hw']} {k}_variants = true := by decide +kernel")
+        L.append("")
+    L.append("/-- registry for the driver: type name ↦ (field names, per reader field: S scalar / A scalar array / R record array / V1 one inline record / L length-prefixed records, hidden, number of reader arguments, writer, reader) -/")
+    L.append("def allPairs : List (String × List String × List String × List Bool × Nat × List WF × List RF) := [")
     rows = []
     for k in sorted(covered):
         v = covered[k]
@@ -867,7 +1707,7 @@ def main():
         names = lean_list(['"%s"' % n for n in v["names"]])
         show = lean_list(['"%s"' % s for s in v["show"]])
         hid = lean_list(["true" if h else "false" for h in v["hidden"]])
-        rows.append(f'  ("{v["type"]}", {names}, {show}, {hid}, {k}_w, {k}_r)')
+        rows.append(f'  ("{v["type"]}", {names}, {show}, {hid}, {len(v["args"])}, {k}_w, {k}_r)')
     L.append(",\n".join(rows))
     L.append("]")
     L.append("")
@@ -901,7 +1741,7 @@ def main():
             continue
         sn = f"{v['reader'][0]}_{v['reader'][1]}"
         if sn in shape_names:
-            K.append(f"theorem {k}_reader_agrees : agrees ReadShapes.{sn}_shape WriteProgs.{k}_r = true := by decide +kernel")
+            K.append(f"theorem {k}_reader_agrees : agrees ReadShapes.customNames ReadShapes.{sn}_shape WriteProgs.{k}_r = true := by decide +kernel")
             linked.append(k)
         else:
             unlinked.append(k)
@@ -919,15 +1759,26 @@ def main():
     base_path = os.path.join(HERE, "writers_expected.json")
     unparsed = []
     cov_names = sorted(covered)
+    hashes = hand_hashes(a.repo)
     if a.write_baseline:
-        json.dump({"covered": cov_names}, open(base_path, "w"), indent=0)
+        json.dump({"covered": cov_names, "enums": sorted(enums_cov), "hand_hashes": hashes}, open(base_path, "w"), indent=0)
     if os.path.exists(base_path):
-        base = json.load(open(base_path))["covered"]
-        for k in base:
+        basej = json.load(open(base_path))
+        for k in basej["covered"]:
             if k not in covered:
                 unparsed.append({"type": k, "reason": "covered in the committed baseline but no longer: " + not_covered.get(k, "type disappeared")})
+        for k in basej.get("enums", []):
+            if k not in enums_cov:
+                unparsed.append({"type": k, "reason": "format enum covered in the committed baseline but no longer: " + enums_not.get(k, "type disappeared")})
+        for k, h in basej.get("hand_hashes", {}).items():
+            if hashes.get(k) != h:
+                unparsed.append({"type": k, "reason": f"hand-written source transcribed in Model/Field.lean / translate/writers.py changed (token hash {hashes.get(k)} vs reviewed {h}): re-review the transcription, then --write-baseline"})
     else:
         unparsed.append({"type": "*", "reason": "translate/writers_expected.json missing"})
+    feat = {}
+    for k in cov_names:
+        for ft in covered[k]["features"]:
+            feat.setdefault(ft, []).append(k)
     rep = {
         "obligations": 0,  # the per-pair theorems are counted from Gen/WriteProgs.lean by ./check
         "writers_in_generated": total,
@@ -936,6 +1787,10 @@ def main():
         "writer_statements_consumed": stmts_consumed,
         "covered": sorted(set(v["type"] for k, v in covered.items() if len(by_name[v["type"]]) == 1)),
         "covered_pairs": cov_names,
+        "covered_args": {v["type"]: v["args"] for k, v in covered.items() if len(by_name[v["type"]]) == 1 and v["args"]},
+        "features": feat,
+        "child_args": parse_child_args(rsrc),
+        "show_kinds": {v["type"]: dict(zip(v["names"], v["show"])) for k, v in covered.items() if len(by_name[v["type"]]) == 1 and any(x not in ("S", "A", "R") for x in v["show"])},
         "computed_fields": sorted(computed_ids),
         "reader_layouts_linked_to_C01_shapes": len(linked),
         "reader_layouts_without_C01_shape": unlinked,
@@ -943,11 +1798,16 @@ def main():
         "assumed": {k: covered[k]["assume_text"] for k in cov_names if covered[k]["assumes"]},
         "not_covered": not_covered,
         "not_covered_reasons": dict(sorted(reasons.items(), key=lambda kv: -kv[1])),
+        "enums_in_generated": len(enums_cov) + len(enums_not),
+        "enums_covered": {k: [f"{n}={fmt}" for (n, _, fmt) in v["variants"]] for k, v in enums_cov.items()},
+        "enums_not_covered": enums_not,
+        "hand_hashes": hashes,
         "samples": [{"pair": k, "writer": covered[k]["w"][:6], "reader": covered[k]["r"][:6]} for k in cov_names[:3]],
         "unparsed": unparsed,
     }
     json.dump(rep, open(a.report, "w"), indent=1)
-    print(f"writers.py: {len(covered)} of {total} generated writers translated, {len(not_covered)} not covered, {len(unparsed)} regressions")
+    print(f"writers.py: {len(covered)} of {total} generated writers translated, {len(not_covered)} not covered; "
+          f"{len(enums_cov)} of {len(enums_cov) + len(enums_not)} format enums; {len(unparsed)} regressions")
     return 0
 
 if __name__ == "__main__":
